@@ -11,6 +11,9 @@ THEOREMS = ['Acc/AccFacts.v: get_type_keyword (ANY prefix of whitespace leaves /
             'DML keyword), get_type_unknown_blank / _other (UNKNOWN otherwise), get_type_total (never raises)',
             'Inst/CaseInv.v C_lex_case_single + Inst/Words.v: every DML/DDL dictionary word in every letter case lexes as one token '
             'of that type in a delimited context',
+            'Inst/C18Fin.v: C18_pipeline_fin / C18_pipeline_fin_member / C18_create_or_replace_fin (finite, bound in the statement: every '
+            'DML/DDL word of the regenerated dictionaries x 2 casings x 6 prefixes x 3 separators x 18 continuations through lexer, '
+            'splitter, all 25 passes and get_type)',
             'C18_rest_ignored_refuted (select(1)), C18_select_dot_unknown, C18_drop_typecast_unknown, '
             'C18_create_or_replace_refuted: the full statement is false of the unchanged tree (findings)']
 TRUSTED = ['exact model of get_type tied to the code by the acc correspondence; that the leading keyword STAYS the first '
